@@ -65,7 +65,11 @@ func c20Replay(i int, raw json.RawMessage) Result {
 	l.Set("/s.jet", "x")
 	set := jet.NewSet(l)
 	t, err := set.GetTemplate("/w.jet")
+	reject := len(v.Pre) == 1 && v.Pre[0] == "REJECT" // not a production of the grammar: the parser should refuse it
 	if err != nil {
+		if reject {
+			return Result{OK: true, Key: v.Src}
+		}
 		return Result{Detail: "harness: generated template does not parse: " + v.Src + ": " + err.Error()}
 	}
 	vis := &c20Visitor{seen: map[jet.Node]int{}}
@@ -81,6 +85,9 @@ func c20Replay(i int, raw json.RawMessage) Result {
 		case "TryNode", "ReturnNode", "UnderscoreNode", "IncludeNode":
 			inv[k] = true
 		}
+	}
+	if reject {
+		inv["stray"] = true
 	}
 	for _, marker := range []string{"[:", ":]", "-(", "yield content"} {
 		if strings.Contains(v.Src, marker) {
@@ -106,6 +113,10 @@ func c20Replay(i int, raw json.RawMessage) Result {
 			sig["kind"] = "twice"
 			return Result{Sig: sig, Key: v.Src, Detail: fmt.Sprintf("Walk on %s visited a %T %d times", v.Src, n, c)}
 		}
+	}
+	if reject {
+		// accepted after all: the walk above neither panicked nor looped, which is all C20 asks of an accepted template
+		return Result{OK: true, Key: v.Src}
 	}
 	if got, want := bagOf(vis.kinds), bagOf(v.Pre); got != want {
 		sig["kind"] = "missed"
